@@ -31,7 +31,7 @@ def run(ctx):
             # fault point: accept() failing (descriptor exhaustion with a client waiting) when the signal arrives
             states = (states if states != '-' else '') [:3] + 'E'
             when = 'after'
-        bind = rng.choice(['v4', 'v4', 'any'])
+        bind = rng.choice(['v4', 'v4', 'any', 'any6'])
         fits = (0 if states == '-' else len(states)) <= threads
         lines.append('shutdown %d %s %s %s %d' % (threads, bind, states, when, int(fits)))
     im = ctx.impl(lines)
